@@ -265,6 +265,27 @@ class SReal:
     def __pos__(self):
         return self
 
+    def __floordiv__(self, o):
+        """floor(self / o) as a fresh integer k with k <= self/o < k+1 (o != 0 assumed)."""
+        try:
+            q = lift(self) / lift(o)
+        except TypeError:
+            return NotImplemented
+        c = _const_value(q)
+        if c is not None:
+            return int(math.floor(c))
+        ctx = cur()
+        ctx._nfresh += 1
+        k = z3.Int(f"floor!{ctx._nfresh}")
+        ctx._add(z3.And(z3.ToReal(k) <= q, q < z3.ToReal(k) + 1))
+        return SInt(k)
+
+    def __rfloordiv__(self, o):
+        return SReal(lift(o)).__floordiv__(self)
+
+    def floor(self):
+        return self.__floordiv__(1)
+
     def __abs__(self):
         e = lift(self)
         c = _const_value(e)
